@@ -368,6 +368,24 @@ func TestC20_EnvelopeGrid(t *testing.T) {
 					run(fmt.Sprintf("%stag%d/len%d", pre, tg, n), cls, icbor.Encode(node), !(tg == 18 && n == 4))
 				}
 			}
+			// the correct tagged envelope ENCLOSED in one more tag (what another
+			// layer of a protocol stack might add: the CWT tag, self-described
+			// CBOR, an encoded-CBOR / URI / date tag, any small number): the
+			// outermost item is then not tag 18
+			outer := []uint64{61, 55799, 601, 16, 17, 19, 96, 97, 98, 24, 63, 32, 256, 1 << 16, 1<<32 + 61, 0xd2, 0x84, 0xd284}
+			for tg := uint64(0); tg <= 40; tg++ {
+				outer = append(outer, tg)
+			}
+			for _, tg := range outer {
+				for _, w := range []int{0, 2, 4, 8} {
+					node := icbor.Tag(tg, icbor.Tag(18, icbor.Arr(elems()...)))
+					if w > 0 {
+						node = node.WithHead(w)
+					}
+					run(fmt.Sprintf("%souter-tag%d/w%d", pre, tg, w), "tag", icbor.Encode(node), true)
+				}
+				run(fmt.Sprintf("%souter-tag%d-twice", pre, tg), "tag", icbor.Encode(icbor.Tag(tg, icbor.Tag(tg, icbor.Tag(18, icbor.Arr(elems()...))))), true)
+			}
 			// element replacement (single and pairs)
 			names := []string{"protected", "unprotected", "payload", "signature"}
 			reps := c20Replacements()
